@@ -189,7 +189,7 @@ def run(tier: str, seed: int, t0: float) -> int:
                                      {"pair": e["s1"]["type"] + "+" + e["s2"]["type"]}))
     for key, least in (("merged:ok", 300), ("replace+replace:merged", 100), ("addMark+addMark:merged", 10), ("removeMark+removeMark:merged", 10)):
         if stats.counts.get(key, 0) < least:
-            raise core.MachineryError(f"vacuity gate: {key}={stats.counts.get(key, 0)} < {least}")
+            core.vacuity(out, f"vacuity gate: {key}={stats.counts.get(key, 0)} < {least}")
     return core.finish("C16", tier, seed, stats, out, t0,
                        rule="ordered pairs of steps (replace with open/closed slices, add-mark, remove-mark) such that the second applies to the result of "
                             "the first; the merged step is applied by the library to every document of a universe on which the pair applies; documents: "
